@@ -371,22 +371,35 @@ pub fn run_worker(a: WorkerArgs) {
                             let alone = exec::run_plan(&plan, false);
                             let same = alone.violation.as_ref().map(|x| x.signature() == sig).unwrap_or(false);
                             if !same {
-                                let mut with_hist = plan.clone();
-                                with_hist.prelude = recent.iter().cloned().collect();
-                                let again = exec::run_plan(&with_hist, false);
-                                if again.violation.as_ref().map(|x| x.signature() == sig).unwrap_or(false) {
-                                    history = with_hist.prelude;
-                                    aggr.inc("probe:violation-needs-history-of-earlier-loads", 1);
-                                } else if alone.violation.is_some() {
-                                    rep = alone; // a different but isolated violation: report that one
-                                } else {
-                                    history = with_hist.prelude;
-                                    aggr.inc("probe:violation-not-reproduced-on-a-fresh-thread", 1);
+                                // try growing suffixes of this thread's history: 2, 16, all (<= 256)
+                                let mut found = false;
+                                for take in [2usize, 16, 256] {
+                                    let mut with_hist = plan.clone();
+                                    let skip = recent.len().saturating_sub(take);
+                                    with_hist.prelude = recent.iter().skip(skip).cloned().collect();
+                                    let again = exec::run_plan(&with_hist, false);
+                                    if again.violation.as_ref().map(|x| x.signature() == sig).unwrap_or(false) {
+                                        history = with_hist.prelude;
+                                        aggr.inc("probe:violation-needs-history-of-earlier-loads", 1);
+                                        found = true;
+                                        break;
+                                    }
+                                    if recent.len() <= take {
+                                        break;
+                                    }
+                                }
+                                if !found {
+                                    if alone.violation.is_some() {
+                                        rep = alone; // a different but isolated violation: report that one
+                                    } else {
+                                        history = recent.iter().cloned().collect();
+                                        aggr.inc("probe:violation-not-reproduced-on-a-fresh-thread", 1);
+                                    }
                                 }
                             }
                         }
                         if matches!(plan.mode.as_str(), "reader" | "load" | "use" | "mem" | "threads") && plan.base.len() <= 1 << 20 {
-                            if recent.len() >= 2 {
+                            if recent.len() >= 256 {
                                 recent.pop_front();
                             }
                             recent.push_back(plan.clone());
